@@ -158,6 +158,8 @@ def snap_pool(w: World) -> Dict[Inst, dict]:
                 'atoms': all_atoms, 'sat': sat,
                 'xtrig_ok': (not it.state.xtriggers
                              or it.state.xtriggers_all_satisfied()),
+                'xtrigs': {str(k): bool(v)
+                           for k, v in it.state.xtriggers.items()},
                 'runahead': it.state.is_runahead,
             }
     return out
@@ -210,6 +212,7 @@ class SetLikeNatural(Monitor):
         self.ref: Optional[RefGraph] = None
         self.gone: Set[Inst] = set()       # left the pool at some time
         self.oblig: Set[Inst] = set()      # must still be submitted
+        self.watch: Set[Inst] = set()      # targets of `set --pre`
         self.cmd: Optional[dict] = None    # command being executed
         self.inside = False
 
@@ -254,7 +257,8 @@ class SetLikeNatural(Monitor):
         return out
 
     def key(self):
-        return (tuple(sorted(self.gone)), tuple(sorted(self.oblig)))
+        return (tuple(sorted(self.gone)), tuple(sorted(self.oblig)),
+                tuple(sorted(self.watch)))
 
     # ------------------------------------------------------------ events
     def on_event(self, kind: str, data: dict) -> None:
@@ -296,6 +300,7 @@ class SetLikeNatural(Monitor):
             inst = (it.tdef.name, int(str(it.point)))
             self.gone.add(inst)
             self.oblig.discard(inst)
+            self.watch.discard(inst)
         elif kind == 'reset':
             if self.inside:
                 b, a = data['before'][0], data['after'][0]
@@ -310,6 +315,7 @@ class SetLikeNatural(Monitor):
         elif kind == 'cmd_start' and data['kind'] == 'jobs-submit':
             for (p, name, num) in data['jobs']:
                 self.oblig.discard((name, int(p)))
+                self.watch.discard((name, int(p)))
 
     # ---------------------------------------------------------- natural
     def _natural(self, w: World, data: dict) -> None:
@@ -355,6 +361,17 @@ class SetLikeNatural(Monitor):
                     self._judge_pre(w, cmd, out)
                 else:
                     self._judge_out(w, cmd, out)
+        if self.watch and w.running:
+            snap = snap_pool(w)
+            for inst in sorted(self.watch):
+                got = snap.get(inst)
+                if got is None or inst in self.oblig:
+                    continue
+                if got['status'] == 'waiting' and got['xtrig_ok'] and all(
+                        self.ref.eval(e, inst[1], set(got['sat']))
+                        for e in self.ref.exprs(*inst)):
+                    self.oblig.add(inst)
+                    COUNTS.bump('obligations')
         COUNTS.flush()
         return out
 
@@ -446,12 +463,19 @@ class SetLikeNatural(Monitor):
                 is_all = False
                 want = {a for a in map(parse_pre, req) if a is not None}
             valid = want & own
+            # xtrigger prerequisites (xtrigger/<label>, xtrigger/all)
+            own_x = set(w.spec.get('xtrig_tasks', {}).get(t, ()))
+            want_x = {r.split('/', 1)[1].split(':')[0] for r in req
+                      if r.startswith('xtrigger/')}
+            valid_x = set(own_x) if 'all' in want_x else (want_x & own_x)
             where = 'active' if inst in pre else (
                 'finished' if inst in cmd['gone'] else 'unspawned')
             kindtag = 'all' if is_all else (
                 'own' if valid == want else ('mixed' if valid else 'foreign'))
+            if want_x:
+                kindtag += '+xtrig' if valid_x else '+foreign-xtrig'
             COUNTS.bump(f'set_pre:{kindtag}:{where}')
-            if not valid and not is_all:
+            if not valid and not is_all and not valid_x:
                 continue      # must be a no-op: the frame check covers it
             targets.add(inst)
             allowed_atoms |= valid
@@ -492,12 +516,22 @@ class SetLikeNatural(Monitor):
                     f'set-pre-satisfied-more:{kindtag}',
                     f'`cylc set --pre={",".join(req)}` on {p}/{t} '
                     f'({where}): also satisfied {sorted(extra)}'))
-            # obligation: all trigger expressions true -> it must run
-            done = set(got['sat'])
-            if got['status'] == 'waiting' and got['xtrig_ok'] and all(
-                    ref.eval(e, p, done) for e in ref.exprs(t, p)):
-                self.oblig.add(inst)
-                COUNTS.bump('obligations')
+            # xtriggers: exactly the requested own ones become satisfied
+            old_x = pre[inst]['xtrigs'] if inst in pre else {}
+            for lab, val in sorted(got['xtrigs'].items()):
+                if lab in valid_x and not val:
+                    out.append(self.viol(
+                        'set-pre-xtrigger-not-satisfied',
+                        f'`cylc set --pre={",".join(req)}` on {p}/{t}: '
+                        f'xtrigger {lab} is not satisfied afterwards'))
+                if lab not in valid_x and val and not old_x.get(lab):
+                    out.append(self.viol(
+                        'set-pre-satisfied-other-xtrigger',
+                        f'`cylc set --pre={",".join(req)}` on {p}/{t}: '
+                        f'xtrigger {lab} became satisfied'))
+            # obligation: once all trigger expressions are true and the
+            # xtriggers satisfied it must run (evaluated in after())
+            self.watch.add(inst)
         self._frame(cmd, allowed_adds, allowed_atoms, targets, out, 'pre')
 
     # ------------------------------------------------------------- frame
